@@ -21,8 +21,32 @@ import copy
 import os
 
 from .. import translate
+from . import normalize
 
 REL = "fairlearn/preprocessing/_correlation_remover.py"
+
+
+# name of the generated definition -> (the term emitted for the pinned source, the source text quoted in its doc comment).
+# When the lifted term IS the pinned term (modulo the operand order of numeric `+` / `*`, normalize.lean_prefer) the pinned
+# term and quotation are emitted: a re-spelling of the same definition (renamed local or comprehension variable, `np.mean(x)`
+# for `x.mean()`, commuted summands) leaves the generated file byte-identical.  Any other term is emitted with the actual text.
+PINNED_DEFS = {
+    "fitMeanKind": (".perColumn", "self.sensitive_mean_ = SENS.mean(axis=0)"),
+    "fitCenter": ("(s - mean)", "np.linalg.lstsq(SENS - (self.sensitive_mean_), USE)  -- first operand, entry-wise"),
+    "transformMean": (".stored", "centring vector of transform: SENS - self.sensitive_mean_"),
+    "transformCenter": ("(s - mean)", "SENS - self.sensitive_mean_"),
+    "outEntry": ("((alpha * (use - proj)) + (((1 : Rat) - alpha) * use))",
+                 "return self.alpha * np.atleast_2d(USE - PROJ) + (1 - self.alpha) * np.atleast_2d(USE)   "
+                 "with PROJ = (centred sensitive).dot(self.beta_)"),
+    "lookupDataFrame": ("dictGet (columns.zipIdx.map (fun p => (p.1, p.2))) key",
+                        "DataFrame: self.lookup_ = {c: i for i, c in enumerate(X.columns)}   (column names as code numbers)"),
+    "lookupArray": ("dictGet (((List.range m).map (fun i => (i, i))).map (fun p => (p.1, p.1))) key",
+                    "ndarray: self.lookup_ = {i: i for i in range(X.shape[1])}"),
+    "sensitiveIdx": ("(ids.map (fun i => lookup i))", "sensitive = [self.lookup_[i] for i in self.sensitive_feature_ids]"),
+    "nonSensitiveIdx": ("(((List.range m).filter (fun i => !(sensitive.contains i))).map (fun i => i))",
+                        "non_sensitive = [i for i in range(X.shape[1]) if i not in sensitive]"),
+}
+BOUND = "i"      # the bound variable of an emitted `fun` (the comprehension variable of the source may have any name)
 
 
 class _U(translate.Untranslatable):
@@ -61,7 +85,21 @@ def _sym(name):
     return ast.Name(id=name, ctx=ast.Load())
 
 
-def symbolic(fn, split_roles, what):
+def split_method(fns):
+    """name of the private method that cuts X into the two column blocks: the one `fit` calls as `a, b = self.<m>(X)`
+    (pinned name `_split_X`; a renamed private method is the same method)"""
+    names = set()
+    for st in fns["fit"].body:
+        if isinstance(st, ast.Assign) and len(st.targets) == 1 and isinstance(st.targets[0], ast.Tuple) and len(st.targets[0].elts) == 2 \
+                and isinstance(st.value, ast.Call) and isinstance(st.value.func, ast.Attribute) and _src(st.value.func.value) == "self" \
+                and [_src(a) for a in st.value.args] == ["X"] and not st.value.keywords:
+            names.add(st.value.func.attr)
+    if len(names) != 1 or next(iter(names)) not in fns:
+        _bad(f"fit does not split X by exactly one `a, b = self.<method>(X)` call of a method of the class: {sorted(names)}")
+    return next(iter(names))
+
+
+def symbolic(fn, split_roles, what, split="_split_X"):
     """inline the straight-line body of `fn`; returns (env, return expression)."""
     env = {}
     ret = None
@@ -79,14 +117,20 @@ def symbolic(fn, split_roles, what):
             # only the feature-count guard of transform: `if ...: raise ValueError(...)`
             if not st.orelse and len(st.body) == 1 and isinstance(st.body[0], ast.Raise):
                 continue
-            _bad(f"{what}: unexpected if-statement `{_src(st)[:80]}`")
+            a, b = (st.body[0], st.orelse[0]) if len(st.body) == 1 and len(st.orelse) == 1 else (None, None)
+            if isinstance(a, ast.Assign) and isinstance(b, ast.Assign) and len(a.targets) == 1 and len(b.targets) == 1 \
+                    and _src(a.targets[0]) == _src(b.targets[0]) and isinstance(a.targets[0], (ast.Name, ast.Attribute)):
+                # `if c: t = x  else: t = y`  is  `t = x if c else y`
+                st = ast.Assign(targets=[a.targets[0]], value=ast.IfExp(test=st.test, body=a.value, orelse=b.value))
+            else:
+                _bad(f"{what}: unexpected if-statement `{_src(st)[:80]}`")
         if not (isinstance(st, ast.Assign) and len(st.targets) == 1):
             _bad(f"{what}: unexpected statement `{_src(st)[:80]}`")
         tgt, val = st.targets[0], st.value
         if isinstance(val, ast.Call) and _src(val.func) == "validate_data" and len(val.args) == 2 \
                 and _src(val.args[0]) == "self" and _src(val.args[1]) == "X" and _src(tgt) == "X":
             continue      # X = validate_data(self, X): same matrix as ndarray
-        if isinstance(val, ast.Call) and _src(val.func) == "self._split_X":
+        if isinstance(val, ast.Call) and _src(val.func) == "self." + split:
             if not (isinstance(tgt, ast.Tuple) and len(tgt.elts) == 2 and all(isinstance(e, ast.Name) for e in tgt.elts)
                     and [_src(a) for a in val.args] == ["X"] and not val.keywords):
                 _bad(f"{what}: `_split_X` call of unknown shape: {_src(st)}")
@@ -187,26 +231,40 @@ def comprehension(node, env_names, what):
             _bad(f"{what}: unknown filter `{_src(c)}`")
         nm = env_names[c.comparators[0].id]
         if isinstance(c.ops[0], ast.NotIn):
-            e = f"({e}.filter (fun {v} => !({nm}.contains {v})))"
+            e = f"({e}.filter (fun {BOUND} => !({nm}.contains {BOUND})))"
         elif isinstance(c.ops[0], ast.In):
-            e = f"({e}.filter (fun {v} => {nm}.contains {v}))"
+            e = f"({e}.filter (fun {BOUND} => {nm}.contains {BOUND}))"
         else:
             _bad(f"{what}: unknown filter `{_src(c)}`")
     elt = _src(node.elt)
     if elt == v:
-        body = v
+        body = BOUND
     elif elt == f"self.lookup_[{v}]":
-        body = f"lookup {v}"
+        body = f"lookup {BOUND}"
     else:
         _bad(f"{what}: unknown element expression `{elt}`")
-    return f"({e}.map (fun {v} => {body}))"
+    return f"({e}.map (fun {BOUND} => {body}))"
 
 
-def lift_split(cls):
-    fn = [f for f in cls.body if isinstance(f, ast.FunctionDef) and f.name == "_split_X"]
+def lift_split(cls, split="_split_X"):
+    fn = [f for f in cls.body if isinstance(f, ast.FunctionDef) and f.name == split]
     if len(fn) != 1:
         _bad("_split_X not found")
     body = _strip_doc(fn[0].body)
+    # `t = X[:, <list>]` temporaries (assigned once, after the two lists) are substituted into the return
+    lists = {s.targets[0].id for s in body if isinstance(s, ast.Assign) and len(s.targets) == 1
+             and isinstance(s.targets[0], ast.Name) and isinstance(s.value, ast.ListComp)}
+    temps, rest = {}, []
+    for st in body:
+        if len(rest) >= 2 and isinstance(st, ast.Assign) and len(st.targets) == 1 and isinstance(st.targets[0], ast.Name) \
+                and st.targets[0].id not in temps and st.targets[0].id not in lists | {"X", "self"} \
+                and isinstance(st.value, ast.Subscript) and _src(st.value.value) == "X":
+            temps[st.targets[0].id] = st.value
+        else:
+            rest.append(st)
+    if temps and rest and isinstance(rest[-1], ast.Return) and rest[-1].value is not None:
+        rest[-1] = ast.Return(value=_Subst(temps).visit(copy.deepcopy(rest[-1].value)))
+    body = rest
     if not (len(body) == 3 and all(isinstance(s, ast.Assign) and len(s.targets) == 1 and isinstance(s.targets[0], ast.Name)
                                    for s in body[:2]) and isinstance(body[2], ast.Return)):
         _bad(f"_split_X: expected two list definitions and a return, got {[_src(s)[:40] for s in body]}")
@@ -279,8 +337,8 @@ def lift_lookup(cls):
 
 
 # ------------------------------------------------------------------------------------------- fit / transform
-def lift_fit(fn, roles):
-    env, ret = symbolic(fn, roles, "fit")
+def lift_fit(fn, roles, split="_split_X"):
+    env, ret = symbolic(fn, roles, "fit", split)
     if ret is None or _src(ret) != "self":
         _bad("fit: does not return self")
     # beta_
@@ -295,8 +353,8 @@ def lift_fit(fn, roles):
                 _bad(f"fit: self.beta_ = `{_src(v)[:80]}`")
     if beta is None or not (isinstance(beta, ast.Call) and _src(beta.func) in ("np.linalg.lstsq", "numpy.linalg.lstsq")):
         _bad("fit: beta_ is not the first result of np.linalg.lstsq")
-    if len(beta.args) != 2 or any(k.arg != "rcond" for k in beta.keywords):
-        _bad(f"fit: lstsq call of unknown shape: {_src(beta)[:120]}")
+    if len(beta.args) != 2 or any(k.arg != "rcond" or _src(k.value) != "None" for k in beta.keywords):
+        _bad(f"fit: lstsq call of unknown shape (operands positional, `rcond=None` at most): {_src(beta)[:120]}")
     A, b = beta.args
     if _src(b) != "USE":
         _bad(f"fit: second lstsq operand is `{_src(b)[:60]}`, not the non-sensitive columns")
@@ -308,6 +366,8 @@ def lift_fit(fn, roles):
     if isinstance(m, ast.IfExp):
         if _src(m.test) == "SENS.shape[1] == 0" and _src(m.body) in ("np.array([])", "numpy.array([])"):
             m, guard = m.orelse, True
+        elif _src(m.test) == "SENS.shape[1] != 0" and _src(m.orelse) in ("np.array([])", "numpy.array([])"):
+            m, guard = m.body, True
         else:
             _bad(f"fit: conditional sensitive_mean_ of unknown shape: {_src(m)[:100]}")
     kind = classify_mean(m, "fit")
@@ -326,8 +386,8 @@ def lift_fit(fn, roles):
     return dict(kind=kind, center=expr, guard=guard, src_mean=_src(m), src_A=_src(A).replace(full_mean_src, "self.sensitive_mean_"))
 
 
-def lift_transform(fn, roles):
-    env, ret = symbolic(fn, roles, "transform")
+def lift_transform(fn, roles, split="_split_X"):
+    env, ret = symbolic(fn, roles, "transform", split)
     if ret is None:
         _bad("transform: no return value")
     dots = []
@@ -378,19 +438,22 @@ def _doc(s):
 @translate.lifter
 def corr_remover(repo):
     with open(os.path.join(repo, REL)) as f:
-        tree = ast.parse(f.read())
+        tree = normalize.parse(f.read())
     cls = [c for c in tree.body if isinstance(c, ast.ClassDef) and c.name == "CorrelationRemover"]
     if len(cls) != 1:
         _bad("class CorrelationRemover not found")
     cls = cls[0]
     fns = {f.name: f for f in cls.body if isinstance(f, ast.FunctionDef)}
-    for need in ("fit", "transform", "_split_X", "_create_lookup"):
+    for need in ("fit", "transform", "_create_lookup"):
         if need not in fns:
             _bad(f"method {need} not found")
-    roles, sens_def, kept_def = lift_split(cls)
+    if len(fns) != sum(1 for f in cls.body if isinstance(f, ast.FunctionDef)):
+        _bad("a method is defined twice")
+    split = split_method(fns)
+    roles, sens_def, kept_def = lift_split(cls, split)
     lk_df, lk_arr = lift_lookup(cls)
-    ft = lift_fit(fns["fit"], roles)
-    tr = lift_transform(fns["transform"], roles)
+    ft = lift_fit(fns["fit"], roles, split)
+    tr = lift_transform(fns["transform"], roles, split)
     o = ["/-", f"GENERATED by harness/lifters/corr_remover.py from {REL}. Do not edit.",
          "`fit` / `transform` are inlined symbolically; SENS / USE are the two blocks returned by `_split_X`.", "-/", "",
          "set_option linter.unusedVariables false", "", "namespace CorrRemoverSrc", "",
@@ -400,6 +463,9 @@ def corr_remover(repo):
          "inductive MeanSrc where", "  | stored", "  | recomputed (k : MeanKind)", "deriving DecidableEq, Repr", ""]
 
     def d(name, params, ty, expr, src):
+        pin = PINNED_DEFS.get(name)
+        if pin is not None and normalize.lean_prefer(expr, [pin[0]]) == pin[0]:
+            expr, src = pin
         o.extend([f"/-- `{_doc(src)}` -/", f"def {name} {params} : {ty} := {expr}", ""])
     d("fitMeanKind", "", "MeanKind", "." + ft["kind"], "self.sensitive_mean_ = " + ft["src_mean"])
     d("fitCenter", "(s mean : Rat)", "Rat", ft["center"], "np.linalg.lstsq(" + ft["src_A"] + ", USE)  -- first operand, entry-wise")
